@@ -27,7 +27,8 @@ LEVEL = "exploration"
 TECHNIQUE = "property-based testing (Hypothesis): per-step bound/termination predicates over extreme forces, and Kolmogorov-Smirnov tests of sampled displacements against the closed-form CDF"
 RULE = (
     "bound: (1-8 atoms, masses, forces with gamma from 0 to +-1e6 incl. mixed, delta scalar or (N,3), T, power scalar/array/dict, seed) x 30 steps; "
-    "density: 20000 steps of one configuration, KS per coordinate. Non-trivial = a coordinate with 0.1<=|gamma|<=50 (informative density) or |gamma|>=700 (clipping region); "
+    "bound cases optionally change the masses mid-run through update_masses() or use the adaptive driver (delta recomputed per step); "
+    "density: 20000 steps of one configuration, KS per coordinate plus an extreme-value test (a sample whose total probability over the run is below 1e-9). Non-trivial = a coordinate with 0.1<=|gamma|<=50 (informative density) or |gamma|>=700 (clipping region); "
     "distinct = (N, rounded log|gamma| pattern, delta kind, power kind)."
 )
 ASSUMPTIONS = [
